@@ -308,7 +308,14 @@ def run_impl(cfg, fs, ops):
         f = mk(cfg, fs)
     except ValueError as e:
         return [['ctor-raise', 'ValueError']]
-    for o in ops:
+    # something else uses NumPy's global generator, and a second noise generator of the same class and seed is drawn
+    # from, between every two operations: a stimulus must not depend on either
+    ncfg = noise_cfg(cfg)
+    other = mk(ncfg, fs) if ncfg else None
+    for i, o in enumerate(ops):
+        disturb_global_rng(i)
+        if other is not None and i % 2 == 1:
+            other.next(2)
         if o[0] == 'next':
             fl = op_flags(o)
             try:
@@ -338,6 +345,18 @@ def run_impl(cfg, fs, ops):
         else:
             res.append(['query', _q(f.n_samples), _q(f.n_samples_remaining), bool(f.is_complete()), _dur(f)])
     return res
+
+
+def disturb_global_rng(k):
+    np.random.seed(1000 + k)
+    np.random.uniform(size=3)
+
+
+def noise_cfg(cfg):
+    """the noise carrier of a configuration, if it has one"""
+    if cfg['t'] in ('bbnoise', 'blnoise', 'firnoise', 'shaped'):
+        return cfg
+    return noise_cfg(cfg['in']) if 'in' in cfg else None
 
 
 def _dur(f):
@@ -784,3 +803,152 @@ def frag_values(fs, info, factors):
     reg.nodes[0] = info
     ev = Evaluator(reg, 0)
     return [ev.factor(*f) for f in factors]
+
+
+# ---------------------------------------------------------------------------
+# memoised functions (fast_cache): sequences of calls in one process whose arguments would collide under a wrong cache
+# key - the same values under different keyword names, swapped keyword order, positional vs keyword forms of different
+# parameters with equal values, values that hash equal (1 / 1.0 / True, 0 / 0.0 / False, -1 / -2) in one position.
+# Every call is judged against the model and against the un-memoised function (__wrapped__).
+def _memo_pool(fs, rng, which):
+    dk = rng.choice([10, 12, 16])
+    rk = rng.choice([2, 3, 4])
+    m = rng.choice([3, 5, 7])
+    m2 = rng.choice([4, 9])
+    d, r = dk / fs, rk / fs
+    if which == 'envelope':
+        w = rng.choice(['hann', 'cosine-squared', 'blackman', 'hamming'])
+        P = lambda *a, **kw: {'fn': 'envelope', 'args': [w, fs] + list(a), 'kw': [[k, v] for k, v in kw.items()]}
+        return [P(duration=d, rise_time=r), P(duration=d, start_time=r), P(rise_time=d, duration=r),
+                P(start_time=r, duration=d), P(rise_time=r, duration=d), P(start_time=d, duration=r),
+                P(d, r), P(d, start_time=r), P(d, None, 0, r), P(d, rise_time=r), P(d, r, m), P(d, r, samples=m),
+                P(d, r, offset=m), P(d, r, start_time=m / fs), P(d, r, 0, 0, m), P(d, r, 0, m / fs),
+                P(d, r, offset=m, samples=m2), P(d, r, samples=m, offset=m2), P(d, r, m, samples=m2), P(d, r, m2, samples=m),
+                P(d, r, 0, 0.0), P(d, r, 0, False), P(d, r, False, 0), P(d, r, 1), P(d, r, True),
+                P(d, r, 0, 0, 1), P(d, r, 0, 0, True), P(d, 0), P(d, False), P(d, 0.0), P(d, None), P(d),
+                P(d, r, transform=None), P(d, r, 0, 0, 'auto'), P(duration=d, rise_time=r, start_time=0),
+                P(duration=d, rise_time=r, offset=0), P(duration=d, rise_time=0, start_time=r),
+                P(duration=d, start_time=0, rise_time=r)]
+    if which == 'cos2envelope':
+        P = lambda *a, **kw: {'fn': 'cos2envelope', 'args': [fs] + list(a), 'kw': [[k, v] for k, v in kw.items()]}
+        return [P(d, r), P(duration=d, rise_time=r), P(rise_time=d, duration=r), P(rise_time=r, duration=d),
+                P(d, rise_time=r), P(d, r, m), P(d, r, offset=m), P(d, r, samples=m), P(d, r, start_time=m / fs),
+                P(d, r, 0, m / fs), P(d, r, 0, 0, m), P(d, r, offset=m, samples=m2), P(d, r, samples=m, offset=m2),
+                P(d, r, 1), P(d, r, True), P(d, r, 0, False), P(d, r, 0, 0.0), P(d, 0), P(d, False), P(d, None),
+                P(d, rise_time=None, start_time=r), P(d, start_time=None or 0, rise_time=r)]
+    fm, dl = fs / 25.0, 4 / fs
+    o, n = rng.choice([0, 2, 5]), rng.choice([9, 12])
+    if which == 'sam_envelope':
+        P = lambda *a, **kw: {'fn': 'sam_envelope', 'args': list(a), 'kw': [[k, v] for k, v in kw.items()]}
+        return [P(o, n, fs, 0.5, fm, dl, True), P(o, n, fs, depth=0.5, fm=fm, delay=dl, equalize=True),
+                P(o, n, fs, depth=0.5, delay=fm, fm=dl, equalize=True), P(o, n, fs, fm=fm, depth=0.5, equalize=True, delay=dl),
+                P(o, n, fs, 0.5, fm, dl, 1), P(o, n, fs, 0.5, fm, dl, False), P(o, n, fs, 0.5, fm, dl, 0),
+                P(o, n, fs, 1, fm, dl, True), P(o, n, fs, 1.0, fm, dl, True), P(o, n, fs, True, fm, dl, True),
+                P(o, n, fs, 0, fm, dl, True), P(o, n, fs, 0.0, fm, dl, True), P(o, n, fs, False, fm, dl, True),
+                P(o, n, fs, 0.5, fm, 0, True), P(o, n, fs, 0.5, fm, False, True), P(o, n, fs, 0.5, fm, 0.0, True),
+                P(-1, n, fs, 0.5, fm, dl, True), P(-2, n, fs, 0.5, fm, dl, True), P(n, o, fs, 0.5, fm, dl, True),
+                P(offset=o, samples=n, fs=fs, depth=0.5, fm=fm, delay=dl, equalize=True),
+                P(samples=o, offset=n, fs=fs, depth=0.5, fm=fm, delay=dl, equalize=True)]
+    P = lambda *a, **kw: {'fn': '_sam_envelope', 'args': list(a), 'kw': [[k, v] for k, v in kw.items()]}
+    return [P(o, n, fs, 0.5, fm, dl, 0.7, 1.3), P(o, n, fs, 0.5, fm, dl, eq_phase=0.7, eq_power=1.3),
+            P(o, n, fs, 0.5, fm, dl, eq_power=0.7, eq_phase=1.3), P(o, n, fs, 0.5, fm, dl, eq_power=1.3, eq_phase=0.7),
+            P(o, n, fs, 0.5, fm, dl, 1.3, 0.7), P(o, n, fs, 0.5, fm, dl, 0, 1), P(o, n, fs, 0.5, fm, dl, False, True),
+            P(o, n, fs, 0.5, fm, dl, 0.0, 1.0), P(-1, n, fs, 0.5, fm, dl, 0.7, 1.3), P(-2, n, fs, 0.5, fm, dl, 0.7, 1.3),
+            P(o, n, fs, 0.5, fm, delay=dl, eq_phase=0.7, eq_power=1.3), P(o, n, fs, 0.5, fm, eq_phase=dl, delay=0.7, eq_power=1.3)]
+
+
+def memo_cases(fs, rng, count, kinds):
+    for _ in range(count):
+        pool = _memo_pool(fs, rng, rng.choice(kinds))
+        yield {'k': 'memo', 'fs': fs, 'calls': [rng.choice(pool) for _ in range(rng.randint(3, 6))]}
+
+
+def _memo_fn(name):
+    from psiaudio import stim
+    return getattr(stim, name)
+
+
+def _memo_call(call, wrapped=False):
+    fn = _memo_fn(call['fn'])
+    if wrapped:
+        fn = fn.__wrapped__
+    try:
+        return ['ok', [float(v) for v in fn(*call['args'], **dict(call['kw']))]]
+    except ValueError:
+        return ['raise']
+
+
+def memo_impl(case):
+    return [_memo_call(c) for c in case['calls']]
+
+
+def _memo_bound(call):
+    import inspect
+    b = inspect.signature(_memo_fn(call['fn']).__wrapped__).bind(*call['args'], **dict(call['kw']))
+    b.apply_defaults()
+    a = dict(b.arguments)
+    if call['fn'] == 'cos2envelope':
+        a['window'] = 'cosine-squared'
+    return a
+
+
+def _memo_env_params(a):
+    """the integers stim.envelope derives, with its own float expressions"""
+    fs = a['fs']
+    elb = int(round(a['start_time'] * fs))
+    dur = int(round(a['duration'] * fs))
+    rise = int(np.floor(dur / 2)) if a['rise_time'] is None else int(round(a['rise_time'] * fs))
+    n = elb + dur if a['samples'] == 'auto' else int(a['samples'])
+    return elb, dur, rise, int(a['offset']), n
+
+
+def memo_expr(case):
+    parts = []
+    for c in case['calls']:
+        a = _memo_bound(c)
+        if c['fn'] in ('envelope', 'cos2envelope'):
+            parts.append('run_envelope ' + ' '.join(zlit(v) for v in _memo_env_params(a)))
+        else:
+            parts.append(f"run_sam {zlit(int(a['delay'] * a['fs']))} {zlit(int(a['offset']))} {zlit(int(a['samples']))}")
+    return ' ++ '.join(f'({p})' for p in parts)
+
+
+def memo_agree(case, res, mo):
+    pos = 0
+    for i, (c, r) in enumerate(zip(case['calls'], res)):
+        a = _memo_bound(c)
+        env = c['fn'] in ('envelope', 'cos2envelope')
+        if env:
+            code = mo[pos]
+            pos += 1
+            if code == 2:
+                if r[0] != 'raise':
+                    return f'call {i} {c}: model raises ValueError, implementation returned an envelope'
+                continue
+            if r[0] == 'raise':
+                return f'call {i} {c}: implementation raised ValueError, model returned an envelope'
+        n = mo[pos]
+        factors = parse_factors(mo[pos:])
+        pos += 1 + 3 * n
+        if env:
+            info = {'kind': 'ramp', 'window': a['window'], 'rise': _memo_env_params(a)[2]}
+        else:
+            cfg = {'depth': a['depth'], 'fm': a['fm'], 'delay': a['delay']}
+            if c['fn'] == '_sam_envelope':
+                cfg.update(eq_phase=a['eq_phase'], eq_power=a['eq_power'])
+            elif not a['equalize']:
+                cfg.update(eq_phase=0, eq_power=1)
+            info = {'kind': 'sam', 'cfg': cfg}
+        want = frag_values(a['fs'], info, factors)
+        if r[1] != want:
+            return f'call {i} {c}: returned {r[1]}, model recipes evaluate to {want}'
+    return None
+
+
+def memo_oracle(case, res):
+    for i, (c, r) in enumerate(zip(case['calls'], res)):
+        w = _memo_call(c, wrapped=True)
+        if r != w:
+            return (f'call {i} of the sequence, {c["fn"]}(*{c["args"]}, **{dict(c["kw"])}), returned '
+                    f'{r if r[0] == "raise" else r[1]} but the un-memoised function gives {w if w[0] == "raise" else w[1]}')
+    return None
